@@ -23,7 +23,7 @@ DRIVER = 'drv_c18'
 
 CLAIM = {
     'technique': 'Lean 4 proof over C (roots of unity, geometric sums, DFT) + kernel-decided prime table + '
-                 'differential correspondence',
+                 'formulas regenerated from the AST with bridge theorems + differential correspondence',
     'text': 'For the model of the reference-signal code: the prime table regenerated from the source selects the '
             'largest prime <= size for every size 2..1200 (decide +kernel + Nat.Prime specification); '
             'RootSequence(u, size) for every size 25..1200 and 0 < u < Nzc is the cyclically repeated Zadoff-Chu '
@@ -34,8 +34,19 @@ CLAIM = {
             'number of users on other cyclic shifts whose delay spread fits one shift window (or, with cover '
             'codes, users with an orthogonal cover code); the LS estimator is exact for every pilot matrix of full '
             'row rank. All statements are for all inputs (no size bound) over C; the model is tied to the code by '
-            'the generated tables and by seeded exact/1e-9 correspondence on every run.',
-    'note': 'np.fft.fft/ifft are replaced by their defining DFT sums and np.linalg.norm/inv by parameters with a '
+            'the generated tables, by the sequence / estimator FORMULAS regenerated from the current AST '
+            '(Generated/C18Formulas.lean: Zadoff-Chu phase, cyclic-shift phase ramp and the SRS/DMRS denominators, '
+            'get_extended_ZF with Python slice and // semantics, the size rule of RootSequence.__init__ and the '
+            'table phase step, IFFT size / kept taps / FFT size / normalisation factor of the CAZAC estimator) '
+            'which theorems generated_zc_phase, generated_shift_phase, generated_extension, generated_size_rule, '
+            'generated_estimator_sizes, generated_formulas_match_model prove equal to the hand model for all '
+            'arguments over R / Z, and by seeded exact/1e-9 correspondence on every run.',
+    'note': 'Trusted for the regenerated formulas: the symbolic executor of harness/gen/c18f.py (it reads '
+            'np.exp(1j*ph) as the unit-modulus array with phase ph, np.arange(N) as the index, np.exp(..)*root_seq '
+            'as the elementwise product, [..]*k / append / hstack / a[0:e] as list operations with Python semantics '
+            '(Model/C18Py.lean), drops asserts, executes private helpers in place; everything that is only equal '
+            'over R or Z is left to the bridge theorems); q of calcBaseZC is a parameter of the generated phase, '
+            'the bridge is at q = 0. np.fft.fft/ifft are replaced by their defining DFT sums and np.linalg.norm/inv by parameters with a '
             'contract (all three checked numerically per run); binary64 rounding (exp of large arguments, FFT) is '
             'outside the theorems: sequence values are compared with tolerance 1e-12 + 16*eps*|argument|, estimator '
             'outputs with 1e-9 RELATIVE to the magnitude of the result (no absolute floor). Root index 0 (all-ones '
@@ -1103,7 +1114,7 @@ def check(ctx):
                 'deterministic scenario sets (every estimator kind x every kind of closeness; every entry point with an '
                 'array argument x refilled buffer) plus seeded ones. '
                 'non-trivial = distinct (call, input) with size >= 2 / sequence length > 24 / at least one tap')
-    core.prove(ctx, MODULE, generated=['PrimeTable', 'C18RootTables'], drivers=[DRIVER], scratch=ctx.scratch)
+    core.prove(ctx, MODULE, generated=['PrimeTable', 'C18RootTables', 'C18Formulas'], drivers=[DRIVER], scratch=ctx.scratch)
     ctx.required_branches = ['lookup:size>=1013', 'root:table', 'root:zc-extended', 'root:zc-plain',
                              'root:error:AttributeError', 'root:error:AssertionError', 'root:error:KeyError',
                              'root:error:IndexError', 'ext:repeat-branch', 'ext:single-branch',
